@@ -6,7 +6,7 @@
      H, HMAC      the hash a.h() and hmac.New(a.h, key)   (theorems hold for every H, HMAC)
      hsize        a.h().Size()
      precis       precis.OpaqueString.String  (None = error, e.g. empty result, control characters)
-     cfg          three source-derived facts about the code (Gen.v, T1): does Start reset the state,
+     cfg          four source-derived facts about the code (Gen.v, T1): does Start reset the state,
                   does handleServerValidationMessage insist on a processed server-first message,
                   does Next(_, more=false) insist on a verified server signature for a running exchange
    Randomness (rand.Reader in initialClientMessage) is an explicit oracle: the list of the 24-byte
@@ -74,10 +74,15 @@ Record scram_id := { sid_user : bytes; sid_pass : bytes; sid_algo : bytes;
 Record scram_state := { ss_bare : bytes; ss_nonce : bytes; ss_salted : bytes; ss_authmsg : bytes;
                         ss_iter : Z; ss_bind : bytes; ss_verified : bool }.
 
-Record scram_cfg := { start_resets : bool; final_requires_first : bool; done_requires_verified : bool }.
+(* restart_resets: Next answers an EMPTY challenge by reset() followed by initialClientMessage() (true of the pinned
+   tree already; read from the source because the theorems need it: a restart must forget the earlier exchange) *)
+Record scram_cfg := { start_resets : bool; final_requires_first : bool; done_requires_verified : bool;
+                      restart_resets : bool }.
 
-Definition cfg_fixed : scram_cfg := {| start_resets := true; final_requires_first := true; done_requires_verified := true |}.
-Definition cfg_old : scram_cfg := {| start_resets := false; final_requires_first := false; done_requires_verified := false |}.
+Definition cfg_fixed : scram_cfg :=
+  {| start_resets := true; final_requires_first := true; done_requires_verified := true; restart_resets := true |}.
+Definition cfg_old : scram_cfg :=
+  {| start_resets := false; final_requires_first := false; done_requires_verified := false; restart_resets := true |}.
 
 Definition ss_zero : scram_state :=
   {| ss_bare := []; ss_nonce := []; ss_salted := []; ss_authmsg := []; ss_iter := 0%Z; ss_bind := []; ss_verified := false |}.
@@ -215,7 +220,7 @@ Section Scram.
     if more then
       match msg with
       | [] =>
-          match initial_client_message id (ss_reset st) rands with
+          match initial_client_message id (if restart_resets cfg then ss_reset st else st) rands with
           | (st1, rands1, Some r) => ((st1, rands1), Some (Some r))
           | (st1, rands1, None) => ((st1, rands1), None)
           end
